@@ -112,6 +112,77 @@ func runR161(c *core.Ctx) {
 		return ok && nonNil && core.ObjOf(inf, e) == keysParam
 	}, nil)
 	c.Check(guarded, data, fn, "the locator is used whenever one is given (keys != nil branch)", locAssign.Pos(), "", "the locator call is not on the keys != nil branch")
+	// the located key, directly or handed to a local function value: the parameter of a function literal bound to a local
+	// variable stands for what every call of that variable passes in its place
+	var isOrig func(e ast.Expr, depth int) bool
+	isOrig = func(e ast.Expr, depth int) bool {
+		o := core.ObjOf(inf, e)
+		if o == nil || depth > 3 {
+			return false
+		}
+		if o == orig {
+			return true
+		}
+		// parameter k of a literal assigned to a local F
+		var lit *ast.FuncLit
+		k := -1
+		for _, fl := range core.AllFuncLits(fd.Body) {
+			i := 0
+			for _, f := range fl.Type.Params.List {
+				for _, nm := range f.Names {
+					if inf.Defs[nm] == o {
+						lit, k = fl, i
+					}
+					i++
+				}
+			}
+		}
+		if lit == nil {
+			return false
+		}
+		as, ok := par[lit].(*ast.AssignStmt)
+		if !ok || len(as.Lhs) != len(as.Rhs) {
+			return false
+		}
+		var fvar types.Object
+		for i, r := range as.Rhs {
+			if core.Unparen(r) == ast.Expr(lit) {
+				fvar = core.ObjOf(inf, as.Lhs[i])
+			}
+		}
+		if fvar == nil {
+			return false
+		}
+		calls, okAll := 0, true
+		ast.Inspect(fd.Body, func(n ast.Node) bool {
+			call, ok := n.(*ast.CallExpr)
+			if !ok || core.ObjOf(inf, call.Fun) != fvar {
+				return true
+			}
+			calls++
+			if k >= len(call.Args) || !isOrig(call.Args[k], depth+1) {
+				okAll = false
+			}
+			return true
+		})
+		// the variable is only called, never passed on
+		ast.Inspect(fd.Body, func(n ast.Node) bool {
+			if id, ok := n.(*ast.Ident); ok && inf.Uses[id] == fvar {
+				if call, ok := par[id].(*ast.CallExpr); !ok || call.Fun != ast.Expr(id) {
+					if as, ok := par[id].(*ast.AssignStmt); ok {
+						for _, l := range as.Lhs {
+							if l == ast.Expr(id) {
+								return true
+							}
+						}
+					}
+					okAll = false
+				}
+			}
+			return true
+		})
+		return calls > 0 && okAll
+	}
 	// every store into b.Results/Statuses/Errors[...] uses orig as index
 	for _, field := range []string{"Results", "Statuses", "Errors"} {
 		n, okIdx := 0, true
@@ -130,7 +201,7 @@ func runR161(c *core.Ctx) {
 					continue
 				}
 				n++
-				if core.ObjOf(inf, ix.Index) != orig {
+				if !isOrig(ix.Index, 0) {
 					okIdx = false
 				}
 			}
